@@ -9,9 +9,15 @@ Decides, for every `StateMachine::apply_chunk` impl and for the File engine's WA
  (d) code that restores TTLs at construction time is not run on an object whose lease is still the
      constant `None` (the restore would be dead).
 Paths on which the engine has no lease configured (`self.lease` is None) and `?` error exits are not
-witnesses.  Necessary conditions, not the whole TTL behaviour (expiry timing is not decided)."""
+witnesses.  Necessary conditions, not the whole TTL behaviour (expiry timing is not decided). (e) a snapshot install REPLACES the TTL registrations: every Ok path of a `Lease::reload` impl first empties the existing
+index, and every `apply_snapshot_from_file` of an engine with a lease reaches `Lease::reload`; (f) reader/writer framing of the
+File engine's snapshot file: one iteration of the reader's cursor loop, evaluated symbolically, leaves the loop with the cursor
+unchanged whenever the cursor stands on the `[lease_len][lease]` trailer the writer appends (bounded: 2400 concrete layouts).
+"""
 from .common import *
 from .helpers_r2 import *
+
+from .. import pathsym
 
 EXPLANATION = __doc__
 
@@ -152,3 +158,153 @@ def run(ctx):
                       "so k never expires" % (fkey(root), [strip_generics(callee_key(t)).split("::")[-1] for (_c, t) in dead]),
                       loc(b, dead[0][0]) if dead else loc(b, bi))
     ctx.floor("C23-d", n_ctor, 3, "state-machine constructors that start with lease = None")
+
+
+# ---------------------------------------------------------------------------------------------- C23-e
+_run_abcd23 = run
+
+
+def run(ctx):
+    _run_abcd23(ctx)
+    lease_reload_replaces(ctx)
+    snapshot_trailer_reachable(ctx)
+
+
+def snapshot_trailer_reachable(ctx):
+    """C23-f reader/writer framing of the File engine's snapshot file.  generate_snapshot_data writes `[record]* [lease_len u64][lease]`
+    with no record count and no terminator, and apply_snapshot_from_file parses records in a cursor loop and hands what follows
+    the loop to Lease::reload.  Decided by evaluating ONE iteration of the reader's loop symbolically (pathsym.run_region: every
+    path from the loop header to the header again or out of the loop, with exact linear conditions over cursor, buffer length
+    and the lengths read) and checking it on every concrete trailer position of a bounded domain: when the cursor stands on the
+    trailer (cursor + 8 + L == buffer.len(), L = the u64 read at the cursor) the iteration must LEAVE the loop with the cursor
+    UNCHANGED.  If it consumes bytes first, the code after the loop finds no trailer and Lease::reload is never reached: TTL
+    registrations do not travel with the snapshot (and the ones the installing node held are not cleared).
+    The writer side is anchored: after its record loop it appends to_be_bytes(len(lease snapshot)) and then the lease snapshot."""
+    import itertools
+    F = ctx.F
+    n = 0
+    for root in trait_impls(F, SM_TRAIT + "apply_snapshot_from_file"):
+        for b in real_bodies(F, root):
+            reloads = [bi for (bi, t) in b.calls() if re.search(r"Lease>?::reload$", callee_key(t) or "") or re.search(r"Lease>?::reload$", callee_decl(t) or "")]
+            inserts = [bi for (bi, t) in calls_matching(b, r"HashMap(::<.*>)?::insert$")]
+            if not reloads or not inserts:
+                continue
+            H, loop = natural_loop_of(b, inserts[0])
+            if H is None or any(r in loop for r in reloads):
+                continue
+            n += 1
+            key = "%s#record-loop-leaves-the-trailer" % fkey(root)
+            where = loc(b, inserts[0])
+            exits = set(y for x in loop for y in b.succ(x) if y not in loop and not b.blocks[y].get("cleanup") and b.blocks[y]["t"]["k"] != "unreachable")
+            env = dict((l, ("sym", "l%d" % l)) for l in range(1, 4000))
+            try:
+                paths = pathsym.Evaluator(F, b).run_region(H, list(exits) + [H], env)
+            except pathsym.TooComplex as e:
+                ctx.bad("C23-f", key, "UNRECOGNISED-FORM: one iteration of the record loop cannot be evaluated: %s" % e, where)
+                continue
+            cont = [p for p in paths if p.ret == ("stop", H)]
+            cur = [l for l in env if cont and cont[0].env.get(l) != env[l] and cont[0].env.get(l, ("x",))[0] == "bin" and pathsym.mentions(cont[0].env[l], lambda e, l=l: e == env[l])
+                   and (b.local_ty(l) or "") in ("usize", "u64")]
+            tb = pathsym.Table(paths)
+            lens = [q for q in tb.quant if q[0] == "call" and re.search(r"::len$", q[1])]
+            reads = [q for q in tb.quant if q not in lens and not (q[0] == "sym") and pathsym.mentions(q, lambda e: e[0] == "call" and "from_be_bytes" in e[1])]
+            if len(cur) != 1 or len(lens) != 1 or not reads or tb.bools or tb.vars:
+                ctx.bad("C23-f", key, "UNRECOGNISED-FORM: record loop does not have the shape (one cursor, one buffer length, u64 lengths read from the buffer): cursors %s, "
+                        "lengths %d, reads %d, other atoms %d" % ([b.local_name(l) for l in cur], len(lens), len(reads), len(tb.bools) + len(tb.vars)), where)
+                continue
+            c0 = env[cur[0]]
+            # the length read AT the cursor: its index range starts at the cursor itself
+            at_cursor = [q for q in reads if pathsym.mentions(q, lambda e: e[0] == "agg" and "Range" in str(e[1]) and any(f == "start" and v == c0 for (f, v) in e[3]))]
+            if len(at_cursor) > 1:
+                # later reads are positioned after the first one and therefore contain it as a sub-expression: take the innermost
+                inner = [q for q in at_cursor if all(q2 == q or pathsym.mentions(q2, lambda e, q=q: e == q) for q2 in at_cursor)]
+                at_cursor = inner if len(inner) == 1 else at_cursor
+            if len(at_cursor) != 1:
+                ctx.bad("C23-f", key, "UNRECOGNISED-FORM: cannot identify the length prefix read at the cursor (%d candidates)" % len(at_cursor), where)
+                continue
+            K, LEN = at_cursor[0], lens[0]
+            others = [q for q in tb.quant if q not in (c0, K, LEN)]
+            bad_w, n_w = None, 0
+            for pos in range(0, 12):
+                for L in range(0, 40):
+                    for vals in itertools.product((0, 1, 8, 16, 100), repeat=len(others)):
+                        q = {c0: pos, K: L, LEN: pos + 8 + L}
+                        q.update(dict(zip(others, vals)))
+                        w = pathsym.World(q, {}, {})
+                        n_w += 1
+                        try:
+                            sel = [p for p in paths if all(w.holds(c) for c in p.conds if not pathsym._is_unknown(c[0]))]
+                        except KeyError as e:
+                            bad_w = ("unevaluable", str(e)[:80])
+                            break
+                        for p in sel:
+                            try:
+                                end = w.int(p.env[cur[0]])
+                            except KeyError:
+                                end = None
+                            if p.ret == ("stop", H) or end != pos:
+                                bad_w = bad_w or ({"cursor": pos, "lease_len": L, "buffer_len": pos + 8 + L}, "continues" if p.ret == ("stop", H) else "leaves with cursor=%s" % end)
+                        if not sel:
+                            bad_w = bad_w or ({"cursor": pos, "lease_len": L}, "no path")
+                    if bad_w:
+                        break
+                if bad_w:
+                    break
+            ctx.check("C23-f", key, bad_w is None,
+                      "on every trailer position (cursor + 8 + L == buffer.len(); %d concrete layouts) one iteration leaves the loop with the cursor unchanged: the lease section is left for Lease::reload" % n_w,
+                      "with the cursor on the lease trailer the record loop %s (layout %s): generate_snapshot_data appends [lease_len][lease] right after the records with no count "
+                      "or terminator, the reader takes the lease length for a key length, consumes the section and reaches the end of the buffer, so the Lease::reload after the loop "
+                      "never runs. History: leader put(k,v,ttl=1h), snapshot, follower installs: data has k, the follower's lease has 0 registrations - k expires on the leader and "
+                      "lives for ever on the follower; TTLs the follower held before the install are not cleared either" % ((bad_w or ("", ""))[1], (bad_w or ("", ""))[0]), where)
+    ctx.floor("C23-f", n, 1, "apply_snapshot_from_file impls that parse records in a cursor loop and reload a lease trailer after it (File engine)")
+    # writer anchor
+    gens = [r for r in trait_impls(F, SM_TRAIT + "generate_snapshot_data") if "FileStateMachine" in r.id]
+    for g in gens:
+        okw = False
+        for gb in real_bodies(F, g):
+            ext = [(bi, t) for (bi, t) in calls_matching(gb, r"Vec(::<.*>)?::extend_from_slice$")]
+            for i, (bi, t) in enumerate(ext):
+                s1 = Slice(F, gb, through_calls=True).operand(t["args"][1])
+                if s1.has_call(r"to_be_bytes$") and s1.has_call(r"Lease>?::to_snapshot$|::to_snapshot$"):
+                    later = [(x, tt) for (x, tt) in ext if x != bi and gb.dominates(bi, x)]
+                    okw = okw or any(Slice(F, gb, through_calls=True).operand(tt["args"][1]).has_call(r"::to_snapshot$") and
+                                     not Slice(F, gb, through_calls=True).operand(tt["args"][1]).has_call(r"to_be_bytes$") for (x, tt) in later)
+        ctx.check("C23-f", "%s#writes-[lease_len][lease]-trailer" % fkey(g), okw, "the writer appends to_be_bytes(len(lease snapshot)) and then the lease snapshot",
+                  "UNRECOGNISED-FORM: generate_snapshot_data no longer ends with a [lease_len][lease] trailer: the reader check C23-f assumes that layout", "%s:%s" % (g.file, g.line))
+
+
+def lease_reload_replaces(ctx):
+    """C23-e a snapshot install REPLACES the TTL registrations: (1) every `Lease::reload` impl empties its key->expiry index on
+    every path that returns Ok - an early `return Ok(())` before the clear (e.g. "the snapshot holds no TTL, nothing to do")
+    leaves registrations of the pre-install state alive: a key put with a TTL and later overwritten without one keeps its old
+    deadline on a node that catches up by snapshot, and the local cleanup deletes the new value; (2) every
+    `apply_snapshot_from_file` impl of an engine that has a lease reaches `Lease::reload`."""
+    F = ctx.F
+    impls = [F.bodies[d] for (_s, d) in F.impls_of_method.get("d_engine_core::storage::lease::Lease::reload", []) if d in F.bodies and not is_test_id(d) and "mock" not in d.lower()]
+    ctx.floor("C23-e", len(impls), 1, "impls of Lease::reload")
+    for f in impls:
+        ty = strip_generics(f.self_ty or "").split("::")[-1]
+        b = F.main_body(f)
+        clears = [bi for (bi, t) in b.calls() if re.search(r"::(clear|retain)$", strip_generics(callee_key(t) or "")) and t["args"]
+                  and any(x[0] == "field" and strip_generics(x[1]).endswith(ty) for x in Slice(F, b).operand(t["args"][0]).sources)]
+        clears += [bi for (bi, si, st) in writes_to_field(b, ty, "key_to_expiry")]
+        errs = [x for x, tt in b.calls() if "from_residual" in (callee_key(tt) or "")]
+        errs += [bi for bi, blk in enumerate(b.blocks) for st in blk["st"]
+                 if st.get("rv", {}).get("k") == "agg" and st["rv"].get("v") == "Err" and strip_generics(st["rv"].get("adt") or "").endswith("result::Result")]
+        wit = must_pass(b, 0, [], clears + errs, treat_exit_as_goal=True) if clears else [0]
+        ctx.check("C23-e", "%s#replaces-registrations" % fkey(f), bool(clears) and wit is None,
+                  "every Ok path of reload first empties the existing key->expiry index",
+                  "%s::reload can return Ok without emptying the existing registrations: TTLs of the pre-install state survive a snapshot install. History: put(k,v1,ttl) on leader and "
+                  "follower; put(k,v2) without TTL reaches the leader only; the leader snapshots with no live TTL; the follower installs it and keeps k's old deadline; its cleanup "
+                  "deletes v2 at that deadline" % ty, "%s:%s" % (f.file, f.line), wit and clears and bpath(b, wit))
+    n = 0
+    for root in trait_impls(F, SM_TRAIT + "apply_snapshot_from_file"):
+        ty = strip_generics(root.self_ty or "")
+        has_lease = any(n_ == "lease" for p_, a in F.adts.items() if p_ == ty for v in a["variants"] for (n_, _t) in v["fields"])
+        if not has_lease:
+            continue
+        n += 1
+        r = F.fn_reaches(root.id, lambda k: re.search(r"Lease>?::reload$", k) is not None, 7)
+        ctx.check("C23-e", "%s#reaches-Lease::reload" % fkey(root), r is not None, "the install hands the snapshot's lease section to Lease::reload",
+                  "apply_snapshot_from_file of an engine with a lease never calls Lease::reload: TTL registrations do not travel with the snapshot", "%s:%s" % (root.file, root.line))
+    ctx.floor("C23-e", n, 2, "apply_snapshot_from_file impls of engines that hold a lease")
